@@ -8,6 +8,18 @@ def jobs(pid, tier):
     if pid == 'C01':
         J.append(Job('k1_foa', dict(N=4 if q else 6, L=3, K=1),
                      need_outcomes=['created', 'found_or_eliminated', 'raised']))
+        J.append(Job('k2_topcof', dict(N=4 if q else 6, L=3), need_outcomes=['returned', 'raised']))
+        J.append(Job('k3_ite', dict(N=3, L=2, K=2) if q else dict(N=4, L=2, K=3),
+                     need_outcomes=['created', 'no_new_node']))
+        J.append(Job('k4_ite_ind', dict(NT=4, L=2) if q else dict(NT=5, L=3),
+                     need_outcomes=['recursed', 'terminal_or_cached']))
+        J.append(Job('k5_apply', dict(N=5, L=3) if q else dict(N=6, L=3),
+                     need_outcomes=['returned:' + f for f in
+                                    ('not', 'and', 'or', 'xor', 'implies', 'equiv', 'diff',
+                                     'forall', 'exists', 'ite')] + ['arity_refused']))
+        J.append(Job('k6_autoref_ops', dict(N=5, L=3) if q else dict(N=6, L=3),
+                     need_outcomes=['returned:' + o for o in
+                                    ('~', '&', '|', 'implies', 'equiv', '<=', '<', '==', '!=', 'ite')]))
     return J
 
 
